@@ -65,8 +65,9 @@ def sample_masked(env_name: str, spec, mask: Optional[np.ndarray], rng: np.rando
     for i, row in enumerate(mask):
         idx = np.flatnonzero(row)
         if len(idx) == 0:
-            out.append(int(rng.integers(lo[i], hi[i] + 1)))
-            ok = False
+            # an agent with an empty mask row (e.g. a finished MMST agent) has nothing to respect: whatever it
+            # plays, the joint action still counts as mask-respecting
+            out.append(int(lo[i]))
         else:
             out.append(int(rng.choice(idx)))
     return np.asarray(out, dt), ok
